@@ -502,6 +502,7 @@ pub fn random_settings(rng: &mut StdRng, sym: bool) -> serde_json::Value {
     if rng.gen::<f64>() < 0.1 {
         s.insert("static_regularization_constant".into(), json!([1e-7, 1e-9][rng.gen_range(0..2)]));
         s.insert("dynamic_regularization_eps".into(), json!([1e-12, 1e-14][rng.gen_range(0..2)]));
+        s.insert("dynamic_regularization_delta".into(), json!([1e-6, 1e-8][rng.gen_range(0..2)]));
     }
     // the backtracking line search of the nonsymmetric cones: slow (many probes) and coarse back-off factors, short floors
     if !sym && rng.gen::<f64>() < 0.25 {
